@@ -82,3 +82,20 @@ REGISTRY_C06 = __import__("pyvc.contracts", fromlist=["REGISTRY"]).REGISTRY
 REGISTRY_C06["jsonrpclib.jsonrpc.check_for_errors"].corpus = _corpus
 REGISTRY_C06["jsonrpclib.jsonrpc.check_for_errors"].corpus_bound = \
     "4 envelopes x (18 error shapes + 20 codes x 5 code-bearing shapes) x result values"
+
+
+# --- AppError.data: the third component of what check_for_errors put into the exception (C06 "exposing (code, message, data)") ----
+def _app_args(c):
+    return c.old(c.a.self, "args")
+
+
+Contract(
+    "jsonrpclib.jsonrpc.AppError.data",
+    requires=[("raised_by_check_for_errors", lambda c: z3.And(
+        V.is_tuple(_app_args(c)), Val.tlen(_app_args(c)) == 1,
+        V.is_tuple(z3.Select(Val.tat(_app_args(c)), 0)), Val.tlen(z3.Select(Val.tat(_app_args(c)), 0)) == 3))],
+    ensures=[("data_is_the_third_component", lambda c: z3.And(
+        c.returns, c.ret == z3.Select(Val.tat(z3.Select(Val.tat(_app_args(c)), 0)), 2)), ("C06",))],
+    modifies=[],
+    props=("C06",),
+)
